@@ -516,6 +516,41 @@ Snapshot(n, S) ==
                /\ UNCHANGED <<checkpoint, reg, maxRev, signalled, pcAdd,
                               rstate, rmode, rrev, rreb, rcp, rlog, acked, nextW, calls>>
 
+\* Controller.Revert(n): refused unless there is a RW replica and no rebuilding (WO) one;
+\* every RW replica is asked to revert to snapshot n -- its live image becomes the snapshot's
+\* image, its chain ends at n.  A replica whose call fails (F: injected; it does not have the
+\* snapshot; its REST state is `rebuilding`) is marked ERR, the call fails only if nobody
+\* reverted.  What had been acknowledged after the snapshot is given up on purpose.  The
+\* checkpoint is not touched (it may name a snapshot that left the chain: the next
+\* UpdateCheckpoint re-derives it).
+IdxOfName(sq, n) == IF \E i \in 1..Len(sq) : sq[i] = n
+                    THEN CHOOSE i \in 1..Len(sq) : sq[i] = n /\ \A j \in 1..Len(sq) : sq[j] = n => j <= i
+                    ELSE 0
+RevertVol(n, F) ==
+    /\ Called("Revert", [name |-> n, F |-> F])
+    /\ served' = "" /\ sig' = <<>>
+    /\ IF RWs(cmode) = {} \/ WOs(cmode) # {}
+       THEN res' = "refused" /\ UNCHANGED <<ctl, env, acked, nextW, calls>>
+       ELSE LET RW   == RWs(cmode)
+                bad  == {a \in RW : a \in F \/ rreb[a] \/ IdxOfName(rsnaps[a], n) = 0 \/ rstate[a] # "open"}
+                good == RW \ bad
+                cm   == [a \in Addr |-> IF a \in bad THEN "ERR" ELSE cmode[a]]
+            IN \* (environment: somebody reverts.  A revert that fails on EVERY replica returns with
+               \* the frontend shut down; the last removal then skips the reset of the bootstrap
+               \* state -- the frontend is not part of this model, DESIGN.md 7)
+               /\ good # {}
+               /\ cmode' = cm
+               /\ monNote' = [a \in Addr |-> IF a \in bad /\ monWait[a] THEN monNote[a] + 1 ELSE monNote[a]]
+               /\ monWait' = [a \in Addr |-> IF a \in bad THEN FALSE ELSE monWait[a]]
+               /\ readOnly' = VolStatus(cm).ro /\ rwCount' = VolStatus(cm).n
+               /\ rlog' = [a \in Addr |-> IF a \in good THEN rsnapAt[a][n] ELSE rlog[a]]
+               /\ rsnaps' = [a \in Addr |-> IF a \in good THEN SubSeq(rsnaps[a], 1, IdxOfName(rsnaps[a], n))
+                                             ELSE rsnaps[a]]
+               /\ acked' = IF good = {} THEN acked ELSE acked \cap rsnapAt[CHOOSE a \in good : TRUE][n]
+               /\ res' = IF good # {} THEN "ok" ELSE "failed"
+               /\ UNCHANGED <<checkpoint, reg, maxRev, signalled, pcAdd,
+                              rstate, rmode, rrev, rreb, rcp, rsnapAt, nextW, calls>>
+
 \* Controller.Resize (grow): fanned out to every backend that is not ERR -- the rebuilding
 \* (WO) one included; a replica that fails its resize (F: injected; a replica whose REST state
 \* is `rebuilding` does not offer the action at all) is marked ERR like after a failed
